@@ -125,6 +125,8 @@ def make_enabled(tier, max_writers):
             ops.append(["write", i]); ops.append(["write_scenario", i])
             if any(ff == w[0] for ff in model.get("file_fmts", [])):
                 ops.append(["write_skip", i]); ops.append(["write_always", i])
+            # SKIP onto an existing but EMPTY file (a reserved name): it exists, so it must be left untouched, by both entry points
+            ops.append(["write_skip_empty", i, "write_to_file"]); ops.append(["write_skip_empty", i, "write_scenario_to_file"])
         return ops
     return enabled
 
@@ -154,6 +156,11 @@ def step(world, model, op):
                 m["nfiles"] += 1; m["file_fmts"].append(fmt)
                 m["writers"][i][3 if k == "write" else 4] += 1
                 obs.update(path=fn, fmt=fmt, prec=prec, scen=scen, method=method)
+            elif k == "write_skip_empty":
+                fn = os.path.join(world.dir, f"empty{len(os.listdir(world.dir))}.{fmt}")
+                open(fn, "wb").close()
+                getattr(w, op[2])(fn, OverwriteExistingFile.SKIP)
+                obs.update(path=fn, fmt=fmt, prec=prec, scen=scen, method=op[2], before=hashlib.sha256(b"").hexdigest())
             else:
                 fn = [p for p, f in world.files if f == fmt][-1]
                 before = open(fn, "rb").read()
@@ -198,9 +205,10 @@ def check(world, model, model2, op, obs, pre):
         return out
     fmt = o["fmt"]
     data = open(o["path"], "rb").read()
-    if op[0] == "write_skip":
+    if op[0] in ("write_skip", "write_skip_empty"):
         if hashlib.sha256(data).hexdigest() != o["before"]:
-            out.append((f"C15|write_to_file[SKIP]|{fmt}|skip-modified", f"{op}: existing file changed although overwrite mode is SKIP"))
+            out.append((f"C15|{o['method']}[SKIP]|{fmt}|skip-modified{':empty-file' if op[0] == 'write_skip_empty' else ''}",
+                        f"{op}: existing file changed although overwrite mode is SKIP"))
         return out
     exp = pristine(fmt, o["prec"], o["scen"], o["method"])
     rel = relation(model, op)
